@@ -91,4 +91,20 @@ theorem sq_wmean_nonpos (cols : List String) (rows : List XRow) (k : String)
   simp only [wmeanCell, redsOf, sq_numCol_weight]
   rw [if_neg (by simpa using hw)]
 
+theorem sq_cast_sumInt (l : List Int) : ((sumInt l : Int) : Rat) = sumRat (List.map (fun (i : Int) => (i : Rat)) l) := by
+  induction l with
+  | nil => simp [sumInt, sumRat]
+  | cons a l ih => rw [sumInt_cons, List.map_cons, sumRat_cons, ← ih]; push_cast; rfl
+
+theorem sq_numCol_log2 : numCol "log2" = fun r => r.log2 := by funext r; simp [numCol]
+theorem sq_numCol_probes : numCol "probes" = fun r => (r.probes : Rat) := by funext r; simp [numCol]
+theorem sq_numCol_end : numCol "end" = fun r => (r.e : Rat) := by funext r; simp [numCol]
+theorem sq_numCol_start : numCol "start" = fun r => (r.s : Rat) := by funext r; simp [numCol]
+theorem sq_strCol_gene : strCol "gene" = fun r => r.gene := by funext r; simp [strCol]
+theorem sq_strCol_chrom : strCol "chromosome" = fun r => r.chrom := by funext r; simp [strCol]
+
+theorem sq_getLast_e (h : Bool) (l : List XRow) (hne : l ≠ []) :
+    ((l.map (toSeg h)).getLast (by simpa using hne)).e = (l.getLast hne).e := by
+  rw [List.getLast_map]; rfl
+
 end CnvVerif.C14Sq
